@@ -463,6 +463,105 @@ static void cvbr_item(long it,void *ctx){
    codec_close(&c);
 }
 
+/* ------------------------------------------------------------------ part cvbr, history items: constrained VBR after a preceding history
+ * The statement quantifies the CVBR clause over histories of switching too.  Deviation-bounded histories in front of the measured window:
+ *   prefix   : none, or 0.4 s (natural) / 0.2 s (forced) of packets in one of the mode classes {SILK-only, hybrid, CELT-only}; the class is
+ *              reached "naturally" through OPUS_SET_SIGNAL + bitrate + signal family (or, for CELT, through 5 ms frames alone), or
+ *              through the (private) OPUS_SET_FORCE_MODE ctl;
+ *   rate-control history : constraint set once at start (CVBR throughout) | CBR during the prefix, OPUS_SET_VBR(1) at the switch |
+ *              unconstrained VBR during the prefix, OPUS_SET_VBR_CONSTRAINT(1) at the switch;
+ *   window   : 10 s in each of the three mode classes (natural / forced, two (bitrate, frame duration) choices each = 12 "measured
+ *              configurations") x signal families {white noise, speech-like, log sweep, dense 40-harmonic chord, clicks}.
+ * = 22 prefix histories (none + 7 prefixes x 3) x 12 measured configurations x 5 signals = 1320 histories, x (3 rates x 2 channels x {VOIP,AUDIO}) in thorough,
+ * one (rate,channels,application) per history by Latin rotation in quick.  The mode class every packet really has is read from its TOC and
+ * the ordered pairs (prefix class reached, window class reached) are counted; the oracle does not depend on the class being reached.
+ * Oracle: mean packet size over the window <= (B*T/8 + 1) * (1 + tol[measured configuration][signal]); the table is calibrated on the
+ * unchanged tree over ALL histories and all (rate,channels,application) of the thorough space and relaxed >= 2x (floor 1 %), see
+ * CALIBRATION.txt. */
+#define FORCE_MODE_REQUEST 11002          /* OPUS_SET_FORCE_MODE, src/opus_private.h; values 1000 SILK-only, 1001 hybrid, 1002 CELT-only */
+#define FAM_CHORD 100
+static const int HS_FS[3]={16000,24000,48000};
+static const int HS_APP[2]={0,1};                       /* VOIP, AUDIO */
+#define HS_NSIG 5
+static const int HS_FAM[6]={SIG_NOISE,SIG_SPEECH,SIG_SWEEP,FAM_CHORD,SIG_CLICKS,SIG_MULTITONE};   /* 0..4 window signals; 1 and 5 are the prefix signals */
+static const char *const HS_FAMN[6]={"white-noise","speech-like","log-sweep","dense-chord(40 harmonics of 220.66 Hz)","clicks","multitone"};
+static short *HS[3][2][6]; static int HS_period[3];
+static void hs_make(void){
+   int fi,ch,k; for(fi=0;fi<3;fi++){ int Fs=HS_FS[fi]; long L; HS_period[fi]=Fs*3; L=HS_period[fi]+5760;
+      for(ch=1;ch<=2;ch++) for(k=0;k<6;k++){ short *b=malloc(sizeof(short)*L*ch); long n; HS[fi][ch-1][k]=b;
+         if (HS_FAM[k]!=FAM_CHORD){ siggen g; sig_init(&g,HS_FAM[k],Fs,ch,7u+k); sig_gen(&g,b,(int)L); }
+         else for(n=0;n<L;n++){ double t=n/(double)Fs,s=0,s2=0; int h; for(h=1;h<=40&&h*221.32<0.45*Fs;h++){ s+=600*sin(2*M_PI*(220.0*h*1.003)*t+h); s2+=600*sin(2*M_PI*(220.0*h*1.003)*t+1.7*h); }
+            if(ch==1) b[n]=(short)sig_clip16(s); else { b[2*n]=(short)sig_clip16(s); b[2*n+1]=(short)sig_clip16(s2); } } } }
+}
+static const short *hs_frame(int fi,int ch,int k,long sample_pos){ return HS[fi][ch-1][k]+(sample_pos%HS_period[fi])*ch; }
+/* mode-class settings: {OPUS_SET_SIGNAL value, forced mode (0 = OPUS_AUTO), bitrate, duration in 2.5 ms units} */
+typedef struct { int cls, forced, signal, fmode, br, du; } mset;
+static const mset HS_WIN[12]={
+   {0,0,OPUS_SIGNAL_VOICE,0,12000,8},{0,0,OPUS_SIGNAL_VOICE,0,16000,24},   {0,1,OPUS_AUTO,1000,16000,8},{0,1,OPUS_AUTO,1000,24000,16},
+   {1,0,OPUS_SIGNAL_VOICE,0,28000,8},{1,0,OPUS_SIGNAL_VOICE,0,32000,4},    {1,1,OPUS_AUTO,1001,32000,8},{1,1,OPUS_AUTO,1001,48000,4},
+   {2,0,OPUS_SIGNAL_MUSIC,0,64000,8},{2,0,OPUS_SIGNAL_MUSIC,0,32000,4},    {2,1,OPUS_AUTO,1002,48000,8},{2,1,OPUS_AUTO,1002,96000,2} };
+static const mset HS_PRE[7]={
+   {0,0,OPUS_SIGNAL_VOICE,0,12000,8},{0,1,OPUS_AUTO,1000,24000,8}, {1,0,OPUS_SIGNAL_VOICE,0,28000,8},{1,1,OPUS_AUTO,1001,32000,8}, {2,0,OPUS_SIGNAL_MUSIC,0,64000,8},{2,1,OPUS_AUTO,1002,64000,8},
+   {2,0,OPUS_AUTO,0,32000,2} /* CELT-only reached through the frame duration alone (5 ms) */ };
+static const char *const CLSN[4]={"SILK-only","hybrid","CELT-only","none"};
+static const char *const HISTN[3]={"VBR constraint set once at start","CBR during the prefix, OPUS_SET_VBR(1) at the switch","unconstrained VBR during the prefix, OPUS_SET_VBR_CONSTRAINT(1) at the switch"};
+#include "c05_cvbr_tol.h"      /* static const long HS_TOL_PPM[12][5], generated from the calibration run */
+static mc_ctr *c_pair[4][4], *c_hs_runs, *c_hs_unreached_pre, *c_hs_unreached_win;
+static int g_hs_rot, g_hs_on;
+#define HS_NPH 22          /* none + 7 prefixes x 3 rate-control histories */
+#define HS_NHIST ((long)HS_NPH*12*5)
+static int apply_mset(codec *c,const mset *m){
+   int rc=0; rc|=opus_encoder_ctl(c->enc,OPUS_SET_SIGNAL(m->signal)); rc|=opus_encoder_ctl(c->enc,FORCE_MODE_REQUEST,m->forced?m->fmode:OPUS_AUTO); rc|=set_br(c,m->br);
+   c->du=m->du; c->fs=c->Fs/400*m->du; return rc;
+}
+static int majority_cls(const long *n){ long t=n[0]+n[1]+n[2]; int k; if(!t) return 3; for(k=0;k<3;k++) if(n[k]*10>=t*9) return k; return 3; }
+static void cvbr_hist_item(long h,void *ctx){
+   int m=(int)(h%12), sg=(int)((h/12)%HS_NSIG), ph=(int)((h/60)%HS_NPH), cfg=(int)(h/HS_NHIST);
+   int fi=cfg%3, ch=1+(cfg/3)%2, ai=HS_APP[(cfg/6)%2], pre=-1, H=0, mdb=1500, k, len; long pos=0,f,nfr,npre=0,ncls[3]={0,0,0},wcls[3]={0,0,0};
+   long long bytes=0; double budget,mean; long ratio_ppm,tol; codec c; char how[420],hist[260]; const mset *W=&HS_WIN[m]; unsigned char *out; (void)ctx;
+   if (g_hs_rot && cfg!=(m+sg*5+ph*7)%12) return;         /* quick: one (rate,channels,application) per history, Latin rotation */
+   if (ph>0){ pre=(ph-1)/3; H=(ph-1)%3; }
+   if (codec_open(&c,0,HS_FS[fi],ch,ai,pre>=0?HS_PRE[pre].du:W->du)) return;
+   MC_INC(c_chains); out=BLK[mdb];
+   snprintf(c.desc,sizeof c.desc,"OpusEncoder Fs=%d ch=%d app=%s",c.Fs,c.ch,APPN[ai]);
+   /* rate-control history, part 1 */
+   if (set_vbr(&c,!(pre>=0&&H==1)) || set_cvbr(&c,!(pre>=0&&H==2))){ mc_fail("setup:ctl","%s: a rate ctl was refused",c.desc); codec_close(&c); return; }
+   if (pre>=0){
+      const mset *P=&HS_PRE[pre]; int psig = P->cls==2?5:1;
+      if (apply_mset(&c,P)){ mc_fail("setup:ctl","%s: a prefix ctl was refused",c.desc); codec_close(&c); return; }
+      npre = (P->forced?80:160)/P->du;                       /* 0.2 s forced, 0.4 s natural */
+      snprintf(hist,sizeof hist,"prefix: %ld x %g ms of %s, %s %s (%s, OPUS_SET_SIGNAL=%d, bitrate %d); %s",npre,P->du*2.5,HS_FAMN[psig],P->forced?"forced":"natural",CLSN[P->cls],P->forced?"OPUS_SET_FORCE_MODE":"no mode ctl",P->signal,P->br,HISTN[H]);
+      for(f=0;f<npre;f++){
+         snprintf(how,sizeof how,"%s | prefix frame %ld",hist,f);
+         if (judge(&c,hs_frame(fi,ch,psig,pos),mdb,how,&len)){ codec_close(&c); return; }
+         pos+=c.fs; ncls[rfc_mode(out[0])]++;
+      }
+      /* rate-control history, part 2: the switch */
+      if ((H==1 && set_vbr(&c,1)) || (H==2 && set_cvbr(&c,1))){ mc_fail("setup:ctl","%s: a rate ctl was refused at the switch",c.desc); codec_close(&c); return; }
+   } else snprintf(hist,sizeof hist,"no prefix; %s",HISTN[0]);
+   if (apply_mset(&c,W)){ mc_fail("setup:ctl","%s: a window ctl was refused",c.desc); codec_close(&c); return; }
+   nfr=(long)(g_cv_ms*2/5)/W->du;
+   for(f=0;f<nfr;f++){
+      snprintf(how,sizeof how,"%s | then %d ms window: %s %s (OPUS_SET_SIGNAL=%d, bitrate %d, %g ms frames), signal %s, frame %ld",hist,g_cv_ms,W->forced?"forced":"natural",CLSN[W->cls],W->signal,W->br,W->du*2.5,HS_FAMN[sg],f);
+      if (judge(&c,hs_frame(fi,ch,sg,pos),mdb,how,&len)){ codec_close(&c); return; }
+      pos+=c.fs; bytes+=len; wcls[rfc_mode(out[0])]++;
+      if ((f&63)==63) note_state(&c,4);
+   }
+   budget=(double)W->br*c.fs/(8.0*c.Fs)+1.0; mean=(double)bytes/nfr; ratio_ppm=(long)(mean/budget*1e6); tol=HS_TOL_PPM[m][sg];
+   MC_INC(c_hs_runs); MC_MAX(c_cvbr_worst_ratio,ratio_ppm);
+   { int pc=pre>=0?majority_cls(ncls):3, wc=majority_cls(wcls); MC_INC(c_pair[pre>=0?pc:3][wc]);   /* [3][*] = no prefix or mixed prefix, [*][3] = mixed window */
+     if (pre>=0 && pc!=HS_PRE[pre].cls) MC_INC(c_hs_unreached_pre); if (wc!=W->cls) MC_INC(c_hs_unreached_win);
+     if (g_cv_calib){ char line[400]; int n=snprintf(line,sizeof line,"@CALIBH m=%d sg=%d ph=%d Fs=%d ch=%d app=%s pre=%ld/%ld/%ld win=%ld/%ld/%ld mean=%.4f raw=%.4f\n",m,sg,ph,c.Fs,c.ch,APPN[ai],ncls[0],ncls[1],ncls[2],wcls[0],wcls[1],wcls[2],mean,budget-1.0); if(n>0) fwrite(line,1,n,stdout); fflush(stdout); }
+     if (mean > budget*(1.0+tol*1e-6))
+        mc_fail("enc:cvbr_average:after_history","%s: %s | %d ms window %s %s bitrate %d, %g ms frames, signal %s: %lld bytes in %ld packets (SILK/hybrid/CELT = %ld/%ld/%ld; prefix packets %ld/%ld/%ld) = %.3f bytes/packet = %.3f x (B*T/8 + 1 TOC byte); allowed x %.3f",
+                c.desc,hist,g_cv_ms,W->forced?"forced":"natural",CLSN[W->cls],W->br,W->du*2.5,HS_FAMN[sg],bytes,nfr,wcls[0],wcls[1],wcls[2],ncls[0],ncls[1],ncls[2],mean,mean/budget,1.0+tol*1e-6);
+     else if (pre>=0 && pc!=wc && pc<3 && wc<3) mc_sample("%s: %s | %d ms window %s %s bitrate %d, %g ms frames, signal %s: prefix packets SILK/hybrid/CELT=%ld/%ld/%ld, window %ld/%ld/%ld, mean %.3f bytes = %.4f x (B*T/8+1), allowed x %.3f",
+                c.desc,hist,g_cv_ms,W->forced?"forced":"natural",CLSN[W->cls],W->br,W->du*2.5,HS_FAMN[sg],ncls[0],ncls[1],ncls[2],wcls[0],wcls[1],wcls[2],mean,mean/budget,1.0+tol*1e-6);
+   }
+   codec_close(&c);
+}
+static void cvbr_any_item(long it,void *ctx){ if (it<1620) cvbr_item(it,ctx); else cvbr_hist_item(it-1620,ctx); }
+
 int main(int argc,char **argv){
    const char *mode; long skipped=0;
    mc_init(argc,argv,"C05","grid");
@@ -484,8 +583,13 @@ int main(int argc,char **argv){
       g_nops=(int)mc_arg("--nops",6); g_depth=(int)mc_arg("--depth",3); g_combos=(int)mc_arg("--combos",3);
       if (!strcmp(mode,"hist")) skipped=mc_par(540,hist_item,NULL); else skipped=mc_par(18L*NLAY*5,mshist_item,NULL);
    } else if (!strcmp(mode,"cvbr")){
+      int a,b; char nm[48];
       need_blk(1500); g_cv_ms=(int)mc_arg("--ms",10000); g_cv_rotsig=(int)mc_arg("--rotsig",0); g_cv_calib=(int)mc_arg("--calib",0);
-      skipped=mc_par(1620,cvbr_item,NULL);
+      g_hs_on=(int)mc_arg("--hist",1); g_hs_rot=(int)mc_arg("--rothist",0);
+      for(a=0;a<4;a++) for(b=0;b<4;b++){ snprintf(nm,sizeof nm,"cvbr_hist_prefix_%s_window_%s",a<3?CLSN[a]:"none-or-mixed",b<3?CLSN[b]:"mixed"); c_pair[a][b]=mc_counter(nm); }
+      c_hs_runs=mc_counter("cvbr_history_runs"); c_hs_unreached_pre=mc_counter("cvbr_history_prefix_class_not_reached"); c_hs_unreached_win=mc_counter("cvbr_history_window_class_not_reached");
+      if (g_hs_on) hs_make();
+      skipped=mc_par(g_hs_on?1620+HS_NHIST*12:1620,cvbr_any_item,NULL);
    } else { fprintf(stderr,"unknown --mode %s\n",mode); return 2; }
    (void)skipped;
    { mc_ctr *st=mc_counter("states"),*dn=mc_counter("distinct_nontrivial"); *st=mc_set_count(g_states); *dn=mc_set_count(g_obs); }
